@@ -230,3 +230,45 @@ Definition seeder_spec_ok (cfg : config) (db : list item) (ops : list sop)
   && list_n_eqb (sorted_n toomany) (sorted_n (serials_with (fun e => match e with XTooMany => true | _ => false end) exp))
   && list_n_eqb (sorted_n misb) (sorted_n (serials_with (fun e => match e with XMisb => true | _ => false end) exp))
   && forallb (fun q => (q =? 0) || (q <? c_limit cfg + max_mem cfg all)) pend.
+
+(* a history cut short by Stop().  Stop() closes quit, drains the sender workers' queues and
+   waits; the reader finishes the request it is serving and the workers may still take tasks
+   (select chooses at random between quit and a queued task).  So responses may be DROPPED at
+   any position while later ones are still sent: the stream of an incarnation is an
+   order-preserving sub-sequence of the range (still in order, no repeats), chunk counts, the
+   Misbehaviour set and the pending bound (which counts dropped responses) are not owed.  Stop is
+   outside the property's quantifier; this variant only guards against nonsense. *)
+Fixpoint is_subseq (l m : list item) : bool :=
+  match m with
+  | [] => match l with [] => true | _ => false end
+  | y :: m' => match l with
+               | [] => true
+               | x :: l' => if item_eqb x y then is_subseq l' m' else is_subseq l m'
+               end
+  end.
+
+Definition inc_ok_stopped (cfg : config) (db : list item) (ops : list sop) (exp : list (N * expect))
+                          (inc : N * list oresp) : bool :=
+  let '(c, rs) := inc in
+  match req_of c ops, expect_of c exp with
+  | Some rqc, Some (XServe c') =>
+      (c' =? c)
+      && forallb (fun x => o_sid x =? r_sid rqc) rs
+      && is_subseq (concat_items rs) (range_items db (r_start rqc) (r_stop rqc))
+      && done_only_last rs
+      && tags_sorted rs
+      && forallb (fun x =>
+           match req_of (o_tag x) ops, expect_of (o_tag x) exp with
+           | Some rqt, Some (XServe c'') =>
+               (c'' =? c) && (r_peer rqt =? r_peer rqc) && (r_sid rqt =? r_sid rqc)
+               && limits_ok (min_n (r_num rqt) (c_maxnum cfg)) (min_n (r_size rqt) (c_maxsize cfg)) (o_items x)
+               && (count_tag (o_tag x) rs <=? r_chunks rqt)
+           | _, _ => false
+           end) rs
+  | _, _ => false
+  end.
+
+Definition seeder_spec_ok_stopped (cfg : config) (db : list item) (ops : list sop)
+                                  (incs : list (N * list oresp)) (pend : list N) : bool :=
+  let exp := lifetimes (c_maxchunks cfg) [] ops in
+  nodup_creators incs && forallb (inc_ok_stopped cfg db ops exp) incs.
